@@ -247,7 +247,8 @@ Fixpoint find_by_key (k : list Z) (l : list (list Z * Z)) : option Z :=
   | [] => None
   end.
 
-(* bool EnumClass::isValid(int v) *)
+(* bool EnumClass::isValid(int v): v >= min && v <= max && find_kv( *this, 0, &v, 0, 0) - within the bounds AND in the table
+   (min is the fixed 0 of POTASSCO_ENUM_CONSTANTS or the caller's minVal: it need not be a constant; tools/consts/C16.py anchors the condition) *)
 Definition ec_valid (ec : eclass) (v : Z) : bool :=
   (ec_min ec <=? v) && (v <=? ec_max ec) && match find_by_val v (ec_entries ec) with Some _ => true | None => false end.
 
@@ -445,6 +446,13 @@ Definition enum_repr_ok (ty : Z) (v : Z) : bool :=
   | None => true
   end.
 Definition comp_ok (ty : Z) : bool := existsb (Z.eqb ty) [0; 1; 2; 3; 6; 7; 10; 14].
+(* 17 Level_t 18 Sparse_t 19 Neg_t 20 Off_t 21 Unord_t 22 One_t: the enumerations harness/h_c16.cpp declares with the public macros
+   POTASSCO_ENUM_CONSTANTS / POTASSCO_ENUM_CONSTANTS_T (their descriptors (rep, min, max) are in enum_classes like the library's).
+   Element types of vectors (ops 4, 5): comp_ok and these; pairs (ops 2, 3): comp_ok x comp_ok, <E,int>, <int,E>, <E,E>. *)
+Definition new_enum (ty : Z) : bool := (17 <=? ty) && (ty <=? 22).
+Definition list_ok (ty : Z) : bool := comp_ok ty || new_enum ty.
+Definition pair_ok (ta tb : Z) : bool :=
+  (comp_ok ta && comp_ok tb) || (new_enum ta && ((tb =? 2) || (tb =? ta))) || ((ta =? 2) && new_enum tb).
 
 Definition bytes (len : Z) (r : list Z) : list Z := cut0 (map (fun b => b mod 256) (firstn (Z.to_nat len) r)).
 Definition unsupported : list Z := [-998].
@@ -471,7 +479,7 @@ Definition cast_pair (ta tb : Z) (e : bool) (x : list Z) : option (Z * Z) :=
 
 (* op 2 *)
 Definition obs_parse_pair (ta tb : Z) (e : bool) (x : list Z) : list Z :=
-  if negb (comp_ok ta && comp_ok tb) then unsupported else
+  if negb (pair_ok ta tb) then unsupported else
   let '(sum, a, b, k) := parse_pair ta tb (init_val ta) (init_val tb) e x in
   [sum; (if 1 <=? sum then to_ll a else 0); (if 2 <=? sum then to_ll b else 0); Z.of_nat k;
    match cast_pair ta tb e x with Some _ => 1 | None => 0 end].
@@ -479,7 +487,7 @@ Definition obs_parse_pair (ta tb : Z) (e : bool) (x : list Z) : list Z :=
 (* op 3 *)
 Definition obs_print_pair (ta tb : Z) (a0 b0 : Z) : list Z :=
   let a := norm ta a0 in let b := norm tb b0 in
-  if negb (comp_ok ta && comp_ok tb) || negb (enum_repr_ok ta a && enum_repr_ok tb b) then unsupported else
+  if negb (pair_ok ta tb) || negb (enum_repr_ok ta a && enum_repr_ok tb b) then unsupported else
   let s := print_pair ta tb a b in
   zlen s :: s ++ match cast_pair ta tb false (cut0 s) with Some (a', b') => [1; to_ll a'; to_ll b'] | None => [0; 0; 0] end.
 
@@ -489,7 +497,7 @@ Definition cast_list (ty : Z) (e : bool) (x : list Z) : bool * list Z :=
 
 (* op 4 *)
 Definition obs_parse_list (ty : Z) (e : bool) (x : list Z) : list Z :=
-  if negb (comp_ok ty) then unsupported else
+  if negb (list_ok ty) then unsupported else
   let '(els, k, fault) := parse_list ty e x in
   (if fault then [-997] else []) ++
   zlen els :: Z.of_nat k :: map to_ll els ++ [b2z (fst (cast_list ty e x))].
@@ -497,7 +505,7 @@ Definition obs_parse_list (ty : Z) (e : bool) (x : list Z) : list Z :=
 (* op 5 *)
 Definition obs_print_list (ty : Z) (l0 : list Z) : list Z :=
   let l := map (norm ty) l0 in
-  if negb (comp_ok ty) || negb (forallb (enum_repr_ok ty) l) then unsupported else
+  if negb (list_ok ty) || negb (forallb (enum_repr_ok ty) l) then unsupported else
   let s := print_list ty l in
   let '(ok, els) := cast_list ty false (cut0 s) in
   zlen s :: s ++ b2z ok :: zlen els :: map to_ll els.
